@@ -151,6 +151,8 @@ class MbootCore:
         self.cur = None  # current data phase: dict
         self.max_payload_seen = 0
         self.status_sent: list = []  # every status word sent in a response
+        self.status_ctx: list = []  # parallel: (command tag, first parameter) of the command the response belongs to
+        self.ctx = (0, None)
         self.knobs = knobs
         self.cmd_count = 0
         self.err_plan: dict = {}  # cmd index -> ("initial"|"final", status)
@@ -164,6 +166,7 @@ class MbootCore:
     # -- response builders
     def resp(self, tag: int, *words: int, flags: int = 0) -> bytes:
         self.status_sent.append(words[0])
+        self.status_ctx.append(self.ctx)
         return struct.pack("<4B", tag, flags, 0, len(words)) + struct.pack(f"<{len(words)}I", *words)
 
     def generic(self, status: int, cmd_tag: int) -> bytes:
@@ -182,6 +185,7 @@ class MbootCore:
         if len(pkt) < 4 + 4 * n:
             return self.generic(INVALID_ARGUMENT, tag), None
         p = list(struct.unpack_from(f"<{n}I", pkt, 4))
+        self.ctx = (tag, p[0] if p else None)
         idx = self.cmd_count
         self.cmd_count += 1
         self.cur = None
